@@ -222,6 +222,8 @@ def model_psolve(ctx, node, kw, names):
     dfl = {k: float(Fraction(v[0])) for k, v in ans.get("defaults", [])}
     if "wftree" in ans:
         ctx.tag("hyp:WFTree" if ans["wftree"] else "hyp:outside:WFTree")
+    if "pwf" in ans:
+        ctx.tag("hyp:PWF" if ans["pwf"] else "hyp:outside:PWF")
     if "T" not in ans:
         return ans.get("err", "?"), None, dfl
     if sorted(ans["pins"]) != sorted(names):
